@@ -4,6 +4,7 @@ import (
 	"fmt"
 	"net/http"
 	"strconv"
+	"strings"
 
 	"github.com/zitadel/logging"
 
@@ -353,7 +354,7 @@ func checkCertificate(
 		for _, keyDesc := range metadata.SPSSODescriptor.KeyDescriptor {
 			for _, spX509Data := range keyDesc.KeyInfo.X509Data {
 				for _, reqX509Data := range request.KeyInfo.X509Data {
-					if spX509Data.X509Certificate == reqX509Data.X509Certificate {
+					if normalizeCertificate(spX509Data.X509Certificate) == normalizeCertificate(reqX509Data.X509Certificate) {
 						return nil
 					}
 				}
@@ -362,6 +363,11 @@ func checkCertificate(
 
 		return fmt.Errorf("unknown certificate used to sign request")
 	}
+}
+
+// normalizeCertificate removes the white space base64 text is allowed to contain (line wrapping, indentation)
+func normalizeCertificate(cert string) string {
+	return strings.Join(strings.Fields(cert), "")
 }
 
 func GetAcsUrlAndBindingForResponse(
